@@ -23,6 +23,15 @@ def layouts(repr_, n):
     if n >= 3:
         out['gapped'] = [((i // 2) * 10 + 1, None) if i % 2 == 0 else (None, None) for i in range(n)]
         out['descending'] = [(100 - 10 * i, None) for i in range(n)]
+        if repr_ in ('u8', 'i8', 'u16', 'i16'):
+            bits = 8 if repr_.endswith('8') else 16
+            # `!0`, a shift into the sign bit, MAX / MIN: the value depends on the TYPE the expression is evaluated in
+            if not signed:
+                out['typed-expr'] = [(None, None)] * (n - 1) + [(hi, '!0')]
+            else:
+                out['typed-expr'] = ([(lo, '1 << %d' % (bits - 1)), (None, None), (-1, '!0'), (None, None), (hi, '%s::MAX' % repr_)] + [(None, None)] * n)[:n]
+                if n > 5:
+                    out['typed-expr'] = out['typed-expr'][:4] + [(None, None)] * (n - 5) + [(hi, '%s::MAX' % repr_)]
         out['expr'] = [(8, '1 << 3'), (None, None), (40, 'BASE' if repr_ else '20 * 2'), (None, None)][:n] + [(None, None)] * max(0, n - 4)
         if signed:
             out['negative'] = [(-5, None), (None, None), (None, None), (3, None)][:n] + [(None, None)] * max(0, n - 4)
